@@ -9,6 +9,7 @@ matrix of those distances.
 -/
 import BBProofs.Assign
 import BBProps.C01
+import BBProofs.GenEq14
 
 namespace BB
 
@@ -219,5 +220,34 @@ example : assignments [[2, 0], [3]] 3 = .error .index := by decide
 example : xorRow [true, true, false] [true, false, true] = [false, true, true] := by decide
 example : skPredict [[true, false, false], [true, true, false], [true, true, false]]
     [[true, true, false], [false, false, false]] = [2, 1] := by decide +kernel
+
+/-! ### the code: the scikit-learn wrapper (`bblean/sklearn.py`) as translated from `/repo` on this run -/
+
+/-- code: `fit_predict` returns — and stores in `labels_` — the assignments computed by the ONE `get_assignments` call made
+after the `super().fit` of this very call, whether `compute_labels` is on (the call is made inside `fit`) or off (it is made
+by `fit_predict` itself): never a vector kept from an earlier call -/
+theorem C18_code_fit_predict_fresh (expf : Rat → Rat) (w : W) (cs log : List Nat) (b : Bool)
+    (l0 c0 sl0 nf0 X y p nfe gaFit gaFp : PV) :
+    BBGen.SkBitBirch_fit_predict expf l0 c0 sl0 nf0 (PV.arr .big log) X y p nfe (PV.arr w cs) gaFit gaFp (PV.bool b)
+      = [if b then gaFit else gaFp, if b then gaFit else gaFp, PV.arr w cs, PV.arr .big (List.range' 1 cs.length),
+         PV.int cs.length, PV.arr .big (log ++ [10, 11])] :=
+  gen_sk_fit_predict expf w cs log b l0 c0 sl0 nf0 X y p nfe gaFit gaFp
+
+/-- code: `fit` — the centres are the stacked centroids of the sorted leaf entries, their labels `1 … n` in that order, and
+`labels_` is recomputed (after the base-class fit) exactly when `compute_labels` is on -/
+theorem C18_code_fit (expf : Rat → Rat) (w : W) (cs log : List Nat) (b : Bool) (l0 c0 sl0 nf0 X y p nfe ga : PV) :
+    BBGen.SkBitBirch_fit expf l0 c0 sl0 nf0 (PV.arr .big log) X y p nfe (PV.arr w cs) ga (PV.bool b)
+      = [PV.str "self", if b then ga else l0, PV.arr w cs, PV.arr .big (List.range' 1 cs.length), PV.int cs.length,
+         PV.arr .big (log ++ [10] ++ (if b then [11] else []))] :=
+  gen_sk_fit expf w cs log b l0 c0 sl0 nf0 X y p nfe ga
+
+/-- code: `partial_fit` without data raises and changes nothing; with data `labels_` ends as the LAST assignments computed -/
+theorem C18_code_partial_fit (expf : Rat → Rat) (w : W) (cs log : List Nat) (b : Bool) (l0 c0 sl0 nf0 y p nfe gaFit gaPf : PV) :
+    BBGen.SkBitBirch_partial_fit expf l0 c0 sl0 nf0 (PV.arr .big log) PV.pynone y p nfe (PV.arr w cs) gaFit gaPf (PV.bool b)
+      = [PV.err "ValueError", l0, c0, sl0, nf0, PV.arr .big log] ∧
+    ∀ xs : List Nat, BBGen.SkBitBirch_partial_fit expf l0 c0 sl0 nf0 (PV.arr .big log) (PV.arr .u8 xs) y p nfe (PV.arr w cs) gaFit gaPf (PV.bool b)
+      = [PV.str "self", if b then gaPf else l0, PV.arr w cs, PV.arr .big (List.range' 1 cs.length), PV.int cs.length,
+         PV.arr .big (log ++ [10] ++ (if b then [11, 11] else []))] :=
+  gen_sk_partial_fit expf w cs log b l0 c0 sl0 nf0 y p nfe gaFit gaPf
 
 end BB
